@@ -33,6 +33,8 @@ from vcheck.core import Task, Violation
 ID = 'C09'
 LEVEL = 'exploration'
 BUDGET = {'quick': 45, 'thorough': 420}
+# deterministic sub-checks repeated in a `python -O` child (core.optimized_child)
+OPT_SUBS = ('sare/direct', 'filter', 'remove_path', 'raise_with_cause', 'sare/reuse')
 RULE = ('save_and_reraise_exception: handler bodies are sequences over {nop, '
         'raise_catch (raise and catch an inner exception), set reraise '
         'on/off, strip_tb (body code clears __traceback__ of the handled '
